@@ -175,9 +175,12 @@ const (
 
 // Match evaluates one comparison over the live objects by brute force.
 func (m *Model) Match(path, op string, probe interface{}) ([]int, string) {
+	if _, exists := FieldValue(&shapes.Rec{}, path); !exists {
+		return nil, EUnknownF
+	}
 	class, ok := FieldClass(&shapes.Rec{}, path)
 	if !ok {
-		return nil, EUnknownF
+		return nil, EKeyType // a struct, slice or map: not a searchable kind
 	}
 	probe = m.PrepProbe(path, probe)
 	np, ok := Normalise(probe)
